@@ -93,7 +93,7 @@ def build_histories(tier, seed, rnd, uname="core"):
     return hs, total, u
 
 
-def run_crashdrv(bindir, upath, hs, wd, fpath):
+def run_crashdrv(bindir, upath, hs, wd, fpath, on_disk=False):
     shards = min(C.NCPU, max(1, len(hs) // 20))
     per = (len(hs) + shards - 1) // shards
     procs, files = [], []
@@ -107,6 +107,11 @@ def run_crashdrv(bindir, upath, hs, wd, fpath):
             for h in chunk:
                 f.write(json.dumps(h) + "\n")
         cmd = [os.path.join(bindir, "crashdrv"), "--universe", upath, "--hist", hp, "--out", tp, "--filters", fpath]
+        if on_disk:
+            # the map-geometry histories keep their stores and images on the disk file system of /verif (not on tmpfs)
+            dd = os.path.join(wd, "disk")
+            os.makedirs(dd, exist_ok=True)
+            cmd += ["--tmp", dd]
         procs.append((subprocess.Popen(cmd, stdout=subprocess.PIPE, stderr=subprocess.STDOUT), hp, tp, cmd))
         files.append(tp)
     crashed = []
@@ -251,7 +256,7 @@ def run(prop, tier, seed, replay=None):
         fpath = os.path.join(wd, "probes.json")
         json.dump(F.probe_filters(u), open(fpath, "w"))
         t0 = time.time()
-        tfiles, lost = run_crashdrv(bindir, upath, hs, wd, fpath)
+        tfiles, lost = run_crashdrv(bindir, upath, hs, wd, fpath, on_disk=(uname == "sz"))
         t1 = time.time()
         bad, img, n = judge(upath, tfiles, fpath)
         C.log("[C13] %s: %d histories, %d images, crashdrv %.1fs, judge %.1fs, %d bad images" % (uname, len(hs), n, t1 - t0, time.time() - t1, len(bad)))
